@@ -154,6 +154,7 @@ class StreamingHandler(AsyncCallbackHandler, AsyncIterator):
         else:
             # Temporarily save the content of the completion before this new chunk.
             prev_completion = self.completion
+            stop_found = False
             if chunk is not None:
                 self.completion += chunk
 
@@ -162,29 +163,34 @@ class StreamingHandler(AsyncCallbackHandler, AsyncIterator):
                     if stop_chunk in self.completion:
                         # Make sure the stop chunk is not included
                         self.completion = self.completion.split(stop_chunk)[0]
+                        stop_found = True
 
-                        # If the current chunk does add something new to the final completion
-                        # We push that as well.
-                        if len(self.completion) > len(prev_completion):
-                            self.current_chunk = self.completion[len(prev_completion) :]
-                            await self.push_chunk(None)
+                if stop_found:
+                    # The suffix, if any, is not part of the completion either.
+                    if (
+                        self.suffix
+                        and len(self.completion) > len(prev_completion)
+                        and self.completion.endswith(self.suffix)
+                    ):
+                        self.completion = self.completion[: -1 * len(self.suffix)]
 
-                        # And we stop the streaming
-                        self.streaming_finished_event.set()
-                        self.top_k_nonempty_lines_event.set()
-                        return
+                    # If the current chunk does add something new to the final completion
+                    # we forward only that part, and then we stop the streaming.
+                    chunk = self.completion[len(prev_completion) :]
 
             if self.pipe_to:
-                asyncio.create_task(self.pipe_to.push_chunk(chunk))
-                if chunk is None or chunk == "":
+                if not stop_found or chunk:
+                    asyncio.create_task(self.pipe_to.push_chunk(chunk))
+                if chunk is None or chunk == "" or stop_found:
                     self.streaming_finished_event.set()
                     self.top_k_nonempty_lines_event.set()
             else:
                 if self.enable_print and chunk is not None:
                     print(f"\033[92m{chunk}\033[0m", end="", flush=True)
-                await self.queue.put(chunk)
+                if not stop_found or chunk:
+                    await self.queue.put(chunk)
 
-                if chunk is None or chunk == "":
+                if chunk is None or chunk == "" or stop_found:
                     self.streaming_finished_event.set()
                     self.top_k_nonempty_lines_event.set()
 
@@ -213,13 +219,14 @@ class StreamingHandler(AsyncCallbackHandler, AsyncIterator):
                 self.current_chunk += chunk
 
             if self.current_chunk.startswith(self.prefix):
-                self.current_chunk = self.current_chunk[len(self.prefix) :]
+                remaining_chunk = self.current_chunk[len(self.prefix) :]
+                self.current_chunk = ""
                 self.prefix = None
 
-                # If we're left with something, we "forward it".
-                if self.current_chunk:
-                    await self._process(self.current_chunk)
-                    self.current_chunk = ""
+                # If we're left with something, we "forward it", making sure the
+                # suffix/stop logic is applied to it as well.
+                if remaining_chunk:
+                    await self.push_chunk(remaining_chunk)
         elif self.suffix or self.stop:
             # If we have a suffix, we always check that the total current chunk does not end
             # with the suffix.
